@@ -10,6 +10,8 @@ import (
 	"sort"
 	"strings"
 
+	runewidth "github.com/mattn/go-runewidth"
+
 	"verifharness/internal/ev"
 	"verifharness/internal/gen"
 )
@@ -41,13 +43,14 @@ type Phase struct {
 
 // Prop describes one property's check.
 type Prop struct {
-	ID          string
-	Level       string // evidence level
-	Rule        string // how cases are generated and what makes one non-trivial / distinct
-	Assumptions []string
-	Race        bool // built with -race; the parent parses the race-detector logs
-	Shards      func(thorough bool) int
-	Phases      []Phase
+	ID            string
+	Level         string // evidence level
+	Rule          string // how cases are generated and what makes one non-trivial / distinct
+	Assumptions   []string
+	Race          bool // built with -race; the parent parses the race-detector logs
+	NoWidthSwitch bool // skip the final pass under switched East Asian widths
+	Shards        func(thorough bool) int
+	Phases        []Phase
 	// Post runs in the parent after all shards finished (e.g. to interpret race logs); may be nil.
 }
 
@@ -125,6 +128,44 @@ func RunShard(c *Ctx, progress *os.File) {
 			}
 		}
 	}
+	// Last of all, the program changes its mind about a process-wide setting of the width library the tabular
+	// packages measure with (go-runewidth's documented switch for East Asian terminals, which makes "ambiguous"
+	// characters such as the degree sign, e-acute, Greek and Cyrillic two cells wide), after everything above
+	// has run with it off, and the first cases of every phase run once more.  The library's own measure
+	// (length.StringCells, which every oracle here uses) follows the switch; whatever the library lays out
+	// must follow it too.
+	if p.Race || p.NoWidthSwitch {
+		return
+	}
+	SwitchEastAsianWidth(c)
+	for pi := range p.Phases {
+		ph := &p.Phases[pi]
+		if ph.Solo {
+			continue
+		}
+		n := ph.N(c.Thorough)
+		done := 0
+		for i := 0; i < n && done < 25; i++ {
+			if i%c.NShards != c.Shard {
+				continue
+			}
+			done++
+			RunCase(c, pi, i)
+			c.Rec.Count("cases_run_again_after_the_width_library_was_switched_to_east_asian_widths", 1)
+			if c.Rec.Stop() {
+				return
+			}
+		}
+	}
+}
+
+// EnvEastAsian is the name of the setting SwitchEastAsianWidth puts in force.
+const EnvEastAsian = "go-runewidth DefaultCondition.EastAsianWidth switched on in mid-process"
+
+// SwitchEastAsianWidth flips the width library's process-wide condition.
+func SwitchEastAsianWidth(c *Ctx) {
+	runewidth.DefaultCondition.EastAsianWidth = true
+	c.Rec.SetEnv(EnvEastAsian)
 }
 
 // RunCase runs one case under the panic guard.
